@@ -136,6 +136,16 @@ def write_other_read(dev, v, w):
     return dev.status
 
 
+def write_refused_read(dev, v, w):
+    """w does not fit the format: the write is refused and changes nothing"""
+    dev.status = v
+    try:
+        dev.status = w + 2 ** 32
+    except _struct.error:
+        pass
+    return dev.status
+
+
 def history_lemmas():
     def setup(ex, inputs):
         d = inputs.vars["dev"]
@@ -157,4 +167,8 @@ def history_lemmas():
         Contract(write_other_read, name="DeviceVar: a write of the other process is read",
                  params=params, setup=setup, requires=req, ensures={"reads_the_other_process_s_value": "result == w"},
                  modifies=None, options=inl, canaries={"reads_its_own_old_value": "result == v"}),
+        Contract(write_refused_read, name="DeviceVar: a refused write leaves the stored value",
+                 params=dict(params, w=T.Range(0, 2**31 - 1)), setup=setup, requires=req,
+                 ensures={"reads_the_last_value_written": "result == v"},
+                 modifies=None, options=inl),
     ]
